@@ -47,6 +47,47 @@ def check_last(c, prog, rule):
                "closure %s returns %s" % (cl.rsplit("::", 1)[-1], rr), CF.f.where(), CF.f.path)
 
 
+def check_surjection_target(c, prog, rule):
+    """the domain entry a blinder builds for an input: for an input it does not own, the input's asset generator whatever its
+    form (commitment as is, explicit asset as the unblinded generator; only Null is an error) with zero tag and tweak; for an
+    owned input the generator recomputed from (asset, abf) together with that tag and factor. Asset::into_asset_gen's table."""
+    F = Fn(prog, "blind::SurjectionInput::surjection_target")
+    rows = {}
+    for cx, s_ in F.flat:
+        if s_[0] == "ret":
+            lab = tuple((sh(cn), a) for k, cn, a in cx if k == "if")
+            rows[lab] = re.sub(r"@#\d+", "", sh(s_[1]))
+    GEN = "confidential::Asset::into_asset_gen(arg1.0, arg2)"
+    # grouped by the variant of self only: how the None case of the generator is turned into the error is free
+    by_variant = {}
+    for k, v in rows.items():
+        if v.startswith("std::result::Result::Ok"):
+            v = re.sub(r"\b(some|ok)\((%s)\)" % re.escape(GEN), r"\2", v)
+            by_variant.setdefault(k[:1], set()).add(v)
+    want = {
+        (("discr(arg1)", "=0"),):
+            {"std::result::Result::Ok{tuple{%s, <secp256k1_zkp::Tag as std::default::Default>::default(), secp256k1_zkp::ZERO_TWEAK}}" % GEN},
+        (("discr(arg1)", "=1"),):
+            {"std::result::Result::Ok{tuple{secp256k1_zkp::Generator::new_blinded(arg2, issuance::AssetId::into_tag(arg1.asset), confidential::AssetBlindingFactor::into_inner(arg1.asset_bf)), "
+             "issuance::AssetId::into_tag(arg1.asset), confidential::AssetBlindingFactor::into_inner(arg1.asset_bf)}}"},
+    }
+    errs = [(k, v) for k, v in rows.items() if not v.startswith("std::result::Result::Ok")]
+    c.inst(rule, "surjection_target: Unknown(asset) -> (asset generator of any non-null form, zero tag, zero tweak); Known -> (new_blinded(tag, abf), tag, abf)",
+           by_variant == want and len(errs) == 1 and errs[0][0][:1] == (("discr(arg1)", "=0"),) and ("UnExpectedNullAsset" in errs[0][1] or "from_residual(err(%s))" % GEN in errs[0][1]),
+           "rows %s" % {str(k): v[:160] for k, v in rows.items()}, F.f.where(), F.f.path)
+    G = Fn(prog, "confidential::Asset::into_asset_gen")
+    grows = {}
+    for cx, s_ in G.flat:
+        if s_[0] == "ret":
+            lab = tuple((sh(cn), a) for k, cn, a in cx if k == "if")
+            grows[lab] = sh(s_[1])
+    gwant = {(("discr(arg1)", "=0"),): "std::option::Option::None{}",
+             (("discr(arg1)", "=1"),): "std::option::Option::Some{secp256k1_zkp::Generator::new_unblinded(arg2, issuance::AssetId::into_tag(arg1.0))}",
+             (("discr(arg1)", "=2"),): "std::option::Option::Some{arg1.0}"}
+    c.inst(rule, "Asset::into_asset_gen: Null -> None, Explicit(id) -> unblinded generator of id, Confidential(g) -> g", grows == gwant,
+           "rows %s" % {str(k): v for k, v in grows.items()}, G.f.where(), G.f.path)
+
+
 def run(c, prog, ctx):
     c.explanation = (
         "Static decision of the bookkeeping clauses of C09. (R1) blind_non_last collects (amount, abf, vbf) of exactly the outputs it blinds "
@@ -324,5 +365,6 @@ def run(c, prog, ctx):
         written = sorted({sh(s[1]).rsplit(".", 1)[1] for cx, s in F.flat if s[0] == "store" and re.match(r"^var\('v\d+',\)\.\w+$", sh(s[1]))} - {"blinder_index"})
         c.inst("R7.fully-blinded-fields", name, set(need) <= set(written) and {"blind_value_proof", "blind_asset_proof"} <= set(written),
                "is_fully_blinded reads %s; written per blinded output %s" % (need, written), F.f.where(), F.f.path)
+    check_surjection_target(c, prog, "R6.surjection-target")
     c.floor("R7.fully-blinded-fields", 2)
     c.floor("R4.last", 3)
